@@ -18,6 +18,8 @@ Import ListNotations.
 Section Model.
 Context {C V : Type} (o : kops C V).
 Variable A : V -> V.
+Variable rfix : bool.   (* repaired stopping test (flag arnoldi_reltol_first_step gone): the reference is ||A q_0|| = ||H[:,0]|| *)
+Variable cfix : bool.   (* repaired normalisation (flag arnoldi_clip_garbage gone): a remainder of norm <= tol/2 gives a zero column *)
 
 (* H is kept as the list of its columns, each of length max_iters+1 *)
 Record ast := mk_ast { aQ : list V; aH : list (list C); anorm : C }.
@@ -39,12 +41,18 @@ Definition abody (m : nat) (tol : C) (idx : nat) (s : ast) : ast :=
   let new0 := A (col o (aQ s) idx) in
   let r := mgs (firstn (idx + 1) (aQ s)) 0 new0 (repeat o.(c0) (m + 1)) in
   let nr := o.(vnrm) (fst r) in
-  let new2 := o.(vdiv) (fst r) (clip_min nr (o.(cdiv) tol two)) in
+  (* pinned:   new_vec /= clip(norm, a_min=tol/2)
+     repaired: new_vec = where(norm > tol/2, new_vec / clip(norm, a_min=tol/2), zeros_like(new_vec)) *)
+  let new2 := if cfix && negb (o.(cgtb) nr (o.(cdiv) tol two)) then o.(vzero)
+              else o.(vdiv) (fst r) (clip_min nr (o.(cdiv) tol two)) in
   let h2 := upd (snd r) (idx + 1) nr in
   mk_ast (upd (aQ s) (idx + 1) new2) (upd (aH s) idx h2) nr.
 
+(* the scale the remainder norms are compared with.  Pinned code: H[1,0] itself, so that at idx = 1 H[1,0] is compared with tol*H[1,0].
+   Repaired code: norm(H[:, 0]) = sqrt(|H[0,0]|^2 + |H[1,0]|^2) = ||A q_0||, the size of the first Krylov vector *)
+Definition aref (s : ast) : C := if rfix then o.(chyp) (Hent (aH s) 0 0) (Hent (aH s) 1 0) else Hent (aH s) 1 0.
 Definition a_large (tol : C) (idx : nat) (s : ast) : bool :=
-  o.(cgtb) (anorm s) (o.(cmul) tol (Hent (aH s) 1 0)) || (idx <=? 0).
+  o.(cgtb) (anorm s) (o.(cmul) tol (aref s)) || (idx <=? 0).
 Definition acond (tol : C) (cap idx : nat) (ss : list ast) : bool := (idx <? cap) && existsb (a_large tol idx) ss.
 
 Fixpoint aloop (fuel : nat) (m : nat) (tol : C) (cap idx : nat) (ss : list ast) : nat * list ast :=
